@@ -183,56 +183,92 @@ func (vc *FnVC) evalModifies(env *Env) {
 	}
 }
 
-// callModifies: components a call may write (for loop havoc), type-level.
-func (vc *FnVC) callModifies(c *ssa.CallCommon) (comps []string, all bool) {
+// callModifies: components a call may write (for loop havoc), type-level. all=true means
+// "everything except the classes in keep".
+func (vc *FnVC) callModifies(c *ssa.CallCommon) (comps []string, all bool, keep []string) {
 	if b, ok := c.Value.(*ssa.Builtin); ok {
 		switch b.Name() {
 		case "append":
 			if sl, ok := c.Args[0].Type().Underlying().(*types.Slice); ok {
 				comp, _ := vc.elemComp(sl.Elem())
-				return []string{comp, "alloc"}, false
+				return []string{comp, "alloc"}, false, nil
 			}
 		case "delete":
 			mh, mv, _, _ := vc.mapComps(c.Args[0].Type().Underlying().(*types.Map))
-			return []string{mh, mv, "ML"}, false
+			return []string{mh, mv, "ML"}, false, nil
 		case "copy":
 			if sl, ok := c.Args[0].Type().Underlying().(*types.Slice); ok {
 				comp, _ := vc.elemComp(sl.Elem())
-				return []string{comp}, false
+				return []string{comp}, false, nil
 			}
 		}
-		return nil, false
+		return nil, false, nil
 	}
 	var fcs []*FuncContract
+	unknown := false
 	if c.IsInvoke() {
 		cands, generic := vc.invokeCandidates(c)
 		for _, cd := range cands {
 			fcs = append(fcs, cd.fc)
 		}
 		if generic == nil {
-			if len(cands) == 0 {
-				return nil, true
-			}
+			unknown = true
 		} else {
 			fcs = append(fcs, generic)
 		}
 	} else if fn := c.StaticCallee(); fn != nil {
 		fc := vc.prog.contractOf(fn)
 		if fc == nil {
-			return nil, true
+			unknown = true
+		} else {
+			fcs = append(fcs, fc)
 		}
-		fcs = append(fcs, fc)
 	} else {
 		fc := vc.funcValueContract(c.Value)
 		if fc == nil {
-			return nil, true
+			unknown = true
+		} else {
+			fcs = append(fcs, fc)
 		}
-		fcs = append(fcs, fc)
 	}
 	set := map[string]bool{}
+	var keepSet map[string]bool
+	meet := func(ks map[string]bool) {
+		if keepSet == nil {
+			keepSet = ks
+			return
+		}
+		for k := range keepSet {
+			if !ks[k] {
+				delete(keepSet, k)
+			}
+		}
+	}
+	if unknown {
+		all = true
+		meet(map[string]bool{"ghost": true})
+	}
 	for _, fc := range fcs {
 		if fc.ModifiesAll {
-			return nil, true
+			all = true
+			ks := map[string]bool{"ghost": true}
+			for _, cl := range fc.Preserves {
+				for _, loc := range cl.Locs {
+					if strings.HasPrefix(loc, "all(") && strings.HasSuffix(loc, ")") {
+						ks["pkg:"+allPkg(loc)] = true
+						continue
+					}
+					if _, isGhost := vc.prog.cs.Ghosts[loc]; isGhost {
+						continue
+					}
+					if env := vc.dummyEnvFor(fc); env != nil {
+						for _, c := range env.compsOfLocSpec(loc) {
+							ks["comp:"+c] = true
+						}
+					}
+				}
+			}
+			meet(ks)
 		}
 		if !fc.Pure {
 			set["alloc"] = true
@@ -244,12 +280,19 @@ func (vc *FnVC) callModifies(c *ssa.CallCommon) (comps []string, all bool) {
 				}
 			}
 		}
+		for _, cl := range fc.Records {
+			set["Ghost$"+cl.Name] = true
+		}
 	}
 	for k := range set {
 		comps = append(comps, k)
 	}
 	sort.Strings(comps)
-	return comps, false
+	for k := range keepSet {
+		keep = append(keep, k)
+	}
+	sort.Strings(keep)
+	return comps, all, keep
 }
 
 // locCompsTypeLevel: the components a modifies location may touch, without evaluating it
@@ -468,6 +511,9 @@ func (vc *FnVC) funcValueContract(v ssa.Value) *FuncContract {
 				if fc := vc.prog.cs.Funcs[n.Obj().Pkg().Path()+"::"+n.Obj().Name()+"."+f.Name()]; fc != nil && fc.Kind == "fnfield" {
 					return fc
 				}
+				if fc := vc.prog.cs.Funcs["::"+n.Obj().Pkg().Name()+"."+n.Obj().Name()+"."+f.Name()]; fc != nil && fc.Kind == "fnfield" {
+					return fc
+				}
 			}
 		}
 	}
@@ -547,7 +593,7 @@ func describeCallee(c *ssa.CallCommon) string {
 func (vc *FnVC) unknownCall(what string, sig *types.Signature, st *State) []Val {
 	vc.unmodelled[what] = true
 	vc.enc.usedAssumptions["calls without a contract preserve ghost state (they model entities such callees cannot reach; A3)"] = true
-	vc.havocAll(st, true)
+	vc.havocAll(st, "ghost")
 	return vc.freshResults(sig, st, "r")
 }
 
@@ -614,11 +660,22 @@ func (vc *FnVC) applyContract(fc *FuncContract, sig *types.Signature, args []Val
 	pre := st.clone()
 	// havoc
 	if fc.ModifiesAll {
-		vc.havocAll(st, true)
+		keep := []string{"ghost"}
+		for _, cl := range fc.Preserves {
+			for _, loc := range cl.Locs {
+				if strings.HasPrefix(loc, "all(") && strings.HasSuffix(loc, ")") {
+					keep = append(keep, "pkg:"+allPkg(loc))
+				}
+			}
+		}
+		vc.havocAll(st, keep...)
 		// locations the callee is proved (call-graph scan) to leave alone
 		for _, cl := range fc.Preserves {
 			for _, loc := range cl.Locs {
 				if _, isGhost := vc.prog.cs.Ghosts[loc]; isGhost {
+					continue
+				}
+				if strings.HasPrefix(loc, "all(") {
 					continue
 				}
 				for _, c := range env.compsOfLocSpec(loc) {
@@ -673,7 +730,22 @@ func (vc *FnVC) applyContract(fc *FuncContract, sig *types.Signature, args []Val
 			}
 		}
 	}
+	scope := "true"
+	if len(fc.Assuming) > 0 {
+		preEnv2 := *env
+		preEnv2.st = pre
+		preEnv2.old = pre
+		var cs []string
+		for _, cl := range fc.Assuming {
+			cs = append(cs, vc.trBool(cl.E, &preEnv2))
+		}
+		scope = and(cs...)
+	}
 	for _, cl := range fc.Ensures {
+		vc.assume(implies(scope, vc.trBool(cl.E, &post)))
+	}
+	for _, cl := range fc.Defines {
+		vc.enc.usedAssumptions["abstract verdict defined by "+fc.Key+": "+cl.Src+" (the verdict is a function of the named arguments within one call of the caller)"] = true
 		vc.assume(vc.trBool(cl.E, &post))
 	}
 	// ghost assignments performed by the callee at return
@@ -900,23 +972,32 @@ func (vc *FnVC) doInvoke(c *ssa.CallCommon, st *State) []Val {
 
 func (vc *FnVC) mergeCaseStates(pre *State, outs []*State, guards []string) *State {
 	sameEpoch := true
-	for _, o := range outs {
-		if o.epoch != outs[0].epoch {
+	for _, o := range outs[1:] {
+		if !o.sameEpochs(outs[0]) {
 			sameEpoch = false
 		}
 	}
-	for _, o := range outs {
-		if o.gepoch != outs[0].gepoch {
-			sameEpoch = false
-		}
+	st := &State{ep: map[string]int{}, comp: map[string]string{}}
+	for k, v := range outs[0].ep {
+		st.ep[k] = v
 	}
-	st := &State{epoch: outs[0].epoch, gepoch: outs[0].gepoch, comp: map[string]string{}}
 	if !sameEpoch {
-		vc.epochCtr++
-		st.epoch = vc.epochCtr
-		st.gepoch = vc.epochCtr
 		for _, o := range outs {
 			vc.materialize(o)
+		}
+		vc.epochCtr++
+		classes := map[string]bool{}
+		for _, o := range outs {
+			for k := range o.ep {
+				classes[k] = true
+			}
+		}
+		for c := range classes {
+			for _, o := range outs[1:] {
+				if o.ep[c] != outs[0].ep[c] {
+					st.ep[c] = vc.epochCtr
+				}
+			}
 		}
 	}
 	keys := map[string]bool{}
@@ -1045,7 +1126,7 @@ func (vc *FnVC) doAppend(res ssa.Value, c *ssa.CallCommon, st *State) {
 	comp, es := vc.elemComp(sl.Elem())
 	vc.enc.usedAssumptions["append copies: the result never shares its backing array with the argument"] = true
 	oldArr := sel(vc.cur(st, comp), "(sl-arr "+s+")")
-	base := "(+ (sl-off " + s + ") (sl-len " + s + "))"
+	base := "(sl-len " + s + ")"
 	var newContent, n string
 	// pattern: append(s, <k fixed elements>)
 	if k, arrRef, ok := vc.fixedVarargs(c.Args[1]); ok {
@@ -1060,13 +1141,21 @@ func (vc *FnVC) doAppend(res ssa.Value, c *ssa.CallCommon, st *State) {
 		}
 		newContent = content
 		n = fmt.Sprint(k)
+		if vc.useKeys {
+			set := vc.keysOf(es, oldArr, base)
+			for i := 0; i < k; i++ {
+				ev := sel(sel(vc.cur(st, comp), arrRef), fmt.Sprint(i))
+				set = sto(set, ev, "true")
+			}
+			vc.assume(eq(vc.keysOf(es, newContent, "(+ "+base+" "+fmt.Sprint(k)+")"), set))
+		}
 	} else if bt, isStr := c.Args[1].Type().Underlying().(*types.Basic); isStr && bt.Info()&types.IsString != 0 {
 		// append([]byte, string...)
 		t := vc.term(c.Args[1]).S
 		n = "(str.len " + t + ")"
 		nc := vc.enc.freshConst("appc", arraySort(sInt, es))
 		q := vc.enc.freshName("qi")
-		vc.assume("(forall ((" + q + " Int)) (=> (and (<= 0 " + q + ") (< " + q + " (sl-len " + s + "))) (= (select " + nc + " (+ (sl-off " + s + ") " + q + ")) (select " + oldArr + " (+ (sl-off " + s + ") " + q + ")))))")
+		vc.assume("(forall ((" + q + " Int)) (=> (and (<= 0 " + q + ") (< " + q + " (sl-len " + s + "))) (= (select " + nc + " " + q + ") (select " + oldArr + " " + q + "))))")
 		vc.assume("(forall ((" + q + " Int)) (=> (and (<= 0 " + q + ") (< " + q + " " + n + ")) (= (select " + nc + " (+ " + base + " " + q + ")) (str.to_code (str.at " + t + " " + q + ")))))")
 		newContent = nc
 	} else {
@@ -1075,8 +1164,8 @@ func (vc *FnVC) doAppend(res ssa.Value, c *ssa.CallCommon, st *State) {
 		nc := vc.enc.freshConst("appc", arraySort(sInt, es))
 		tArr := sel(vc.cur(st, comp), "(sl-arr "+t+")")
 		q := vc.enc.freshName("qi")
-		vc.assume("(forall ((" + q + " Int)) (=> (and (<= 0 " + q + ") (< " + q + " (sl-len " + s + "))) (= (select " + nc + " (+ (sl-off " + s + ") " + q + ")) (select " + oldArr + " (+ (sl-off " + s + ") " + q + ")))))")
-		vc.assume("(forall ((" + q + " Int)) (=> (and (<= 0 " + q + ") (< " + q + " " + n + ")) (= (select " + nc + " (+ " + base + " " + q + ")) (select " + tArr + " (+ (sl-off " + t + ") " + q + ")))))")
+		vc.assume("(forall ((" + q + " Int)) (=> (and (<= 0 " + q + ") (< " + q + " (sl-len " + s + "))) (= (select " + nc + " " + q + ") (select " + oldArr + " " + q + "))))")
+		vc.assume("(forall ((" + q + " Int)) (=> (and (<= 0 " + q + ") (< " + q + " " + n + ")) (= (select " + nc + " (+ " + base + " " + q + ")) (select " + tArr + " " + q + "))))")
 		newContent = nc
 	}
 	r := vc.newRef(st, "arr")
@@ -1084,7 +1173,7 @@ func (vc *FnVC) doAppend(res ssa.Value, c *ssa.CallCommon, st *State) {
 	capN := vc.enc.freshConst("cap", sInt)
 	newLen := "(+ (sl-len " + s + ") " + n + ")"
 	vc.assume("(>= " + capN + " " + newLen + ")")
-	vc.define(res, "(mk-slice "+r+" (sl-off "+s+") "+newLen+" "+capN+")")
+	vc.define(res, "(mk-slice "+r+" "+newLen+" "+capN+")")
 }
 
 // fixedVarargs recognises the SSA shape of f(xs...) packing: slice t of new [k]T.
@@ -1134,4 +1223,24 @@ func (vc *FnVC) runDefers(st *State) {
 		merged := vc.mergeCaseStates(pre, []*State{s1, pre}, []string{gname, ngname})
 		*st = *merged
 	}
+}
+
+// allPkg: "all(openapi3\\SchemaError)" -> "openapi3"
+func allPkg(loc string) string {
+	inner := loc[4 : len(loc)-1]
+	if k := strings.Index(inner, "\\"); k >= 0 {
+		inner = inner[:k]
+	}
+	return strings.TrimSpace(inner)
+}
+
+// allExcept: the struct type names excluded from an all(pkg\\T1\\T2) location.
+func allExcept(loc string) []string {
+	inner := loc[4 : len(loc)-1]
+	parts := strings.Split(inner, "\\")
+	var out []string
+	for _, p := range parts[1:] {
+		out = append(out, strings.TrimSpace(p))
+	}
+	return out
 }
